@@ -10,6 +10,11 @@ the caller treats the tie as broken.
   distribution.py  get_distribution                   -> SrcDist.dispatch
   forcefield_helper.py  get_assignment_class          -> SrcFF.cache_step
   stochastic.py  Stochastic._validate                 -> SrcStoch.validate_bad / validate_count
+  bond.py / token.py / stochastic.py / system.py  the descriptor, token, object and system parsers: every string expression and decision
+                                                      -> SrcDescr / SrcToken / SrcStochParse / SrcSysParse (translate_sys.py)
+  mol_gen.py  MolGen.attach_other (without the 3-D placement)  -> SrcAttach;  molecule.py  gen_reaction_graph -> SrcRGraph
+  core.py, stochastic.py, token.py, molecule.py  selection, generation, generable chain -> SrcCore / SrcGen / SrcGenerable
+  distribution.py  interval / point rules, mass function, shape parameter -> SrcDistLaw
   system.py + mixture.py  _estimate_system_molecular_weight and the two linked setters (translate_sys.py)
                                                       -> SrcSys.* (decision expressions; statement skeleton checked)
 """
@@ -493,6 +498,12 @@ TARGETS = {
     "SrcFF": ("forcefield_helper.py", translate_ff),
     "SrcStoch": ("stochastic.py", translate_stoch),
     "SrcDistLaw": ("distribution.py", translate_sys.translate_distlaw),
+    "SrcDescr": ("bond.py", translate_sys.translate_descr),
+    "SrcToken": ("token.py", translate_sys.translate_token),
+    "SrcStochParse": ("stochastic.py", translate_sys.translate_stochparse),
+    "SrcSysParse": ("system.py", translate_sys.translate_sysparse),
+    "SrcAttach": ("mol_gen.py", translate_sys.translate_attach),
+    "SrcRGraph": ("molecule.py", translate_sys.translate_rgraph),
     "SrcCore": ("core.py", translate_sys.translate_core),
     "SrcGen": ("stochastic.py", translate_sys.translate_gen),
     "SrcGenerable": ("stochastic.py", translate_sys.translate_generable),
